@@ -266,6 +266,21 @@ def large_execute(case, stats):
     hay = bytes(hay)
     for start, limit in ((0, None), (65531, None), (0, 70000), (100, 1024)):
         check_scan(utils, hay, n, None, start, limit)
+    # ArtifactKit headers on and around 64 KiB / 128 KiB boundaries of a large file
+    from dissect.cobaltstrike import artifact
+
+    for delta in (-3, -2, -1, 0, 1):  # one file per alignment, so that the planted headers do not overlap
+        data = bytearray(b"\x90" * min(case["size"], 140000))
+        planted = [100, 65536 + delta, 65600, 131072 + delta]
+        for pos in planted:
+            if pos + 40 <= len(data):
+                data[pos : pos + 20] = struct.pack("<II", pos + 16, 8) + b"\x01\x02\x03\x04" + b"HINTHINT"
+        data = bytes(data)
+        for start in (0, 7):
+            got = lib(lambda: [a.offset for a in artifact.iter_artifactkit_payloads(io.BytesIO(data), start)], what="iter_artifactkit_payloads (large file)")
+            want = ref_artifact_scan(data, start, None)
+            check([p_ for p_ in planted if p_ + 40 <= len(data) and p_ >= start] == want, "harness:planted", f"planted headers {planted} vs reference scan {want}")
+            check(got == want, "artifact:offsets", lambda: f"large file ({len(data)} bytes), start {start}: got {got}, expected {want}")
     stats.note(case, True, classes=["large_haystack"])
 
 
